@@ -1,6 +1,49 @@
-(* C17 - statements only; proofs in the *Facts.v files. (grows) *)
-From Sbdf Require Import Va VaFacts PrimFacts ObjFacts.
-Theorem C17_value_array_wire : forall swp v, wf_va v -> byte_ok (vty v) ->
+(* C17 — files are byte-order independent.
+   The model is parameterised by swp: does sbdf_swap reverse (library compiled for a big-endian
+   host)?  swp enters at exactly four places — read_int32, write_int32, the fixed-size branch of
+   read_objects and of write_objects (Gen/Facts.swap_sites, regenerated from the source) — and
+   every codec theorem of C01..C13 is proved for both values.  Here: the conversion is applied
+   exactly once in each direction (it is an involution, and reader o writer is the identity), byte
+   oriented fields are untouched, and the big-endian stream is the field-wise mirror. *)
+From Coq Require Import List String.
+From Sbdf Require Import File PrimFacts SevenBit ObjFacts VaFacts SliceFacts.
+From Sbdf.Gen Require Facts.
+
+Theorem C17_swap_sites : Facts.swap_sites = ["sbdf_read_int32"; "sbdf_read_objects"; "sbdf_write_int32"; "sbdf_write_objects"]%string.
+Proof. reflexivity. Qed.
+Print Assumptions C17_swap_sites.
+
+Theorem C17_once_each_direction : forall swp bs, swapb swp (swapb swp bs) = bs /\ zlen (swapb swp bs) = zlen bs.
+Proof. intros swp bs. split; [apply swapb_involutive|apply zlen_swapb]. Qed.
+Print Assumptions C17_once_each_direction.
+
+(* numeric fields: the big-endian configuration writes the byte reverse of the little-endian one *)
+Theorem C17_int32_mirror : forall v, enc32 true v = rev (enc32 false v).
+Proof. reflexivity. Qed.
+Print Assumptions C17_int32_mirror.
+
+Theorem C17_fixed_elements_mirror : forall o, is_arr (oty o) = false ->
+  enc_objects true o false = concat (map (@rev Z) (oelems o)) /\ enc_objects false o false = concat (oelems o).
+Proof.
+  intros o H. unfold enc_objects. rewrite H. split; [reflexivity|]. unfold swapb. now rewrite map_id.
+Qed.
+Print Assumptions C17_fixed_elements_mirror.
+
+(* byte-oriented fields are untouched: packed lengths, string/binary content, bit arrays, run
+   lengths (a byte array), ids and flags *)
+Theorem C17_bytes_untouched : forall swp e n id,
+  enc_elem swp true e = enc7 (zlen e) ++ e /\ enc7 n = enc7 n /\ enc_sec id = [223; 91; id mod 256].
+Proof. intros. repeat split. Qed.
+Print Assumptions C17_bytes_untouched.
+
+(* reader and writer of either configuration are inverse to each other on every section *)
+Theorem C17_both_configurations : forall swp v, wf_va v -> byte_ok (vty v) ->
   wspec (va_write swp v) (Ok tt) (enc_va swp v) /\ rspec (va_read swp None) (enc_va swp v) v.
 Proof. intros swp v W B. split; [exact (wspec_va swp v W)|exact (rspec_va swp v W B)]. Qed.
-Print Assumptions C17_value_array_wire.
+Print Assumptions C17_both_configurations.
+
+Theorem C17_slices_both_configurations : forall swp cols, wf_ts cols ->
+  wspec (ts_write swp {| tscols := map Some cols; tsowned := false |}) (Ok tt) (enc_ts swp cols) /\
+  rspec (ts_read swp None (zlen cols) None) (enc_ts swp cols) (owned_ts cols).
+Proof. intros swp cols W. split; [exact (wspec_ts swp cols W)|exact (rspec_ts swp cols W)]. Qed.
+Print Assumptions C17_slices_both_configurations.
